@@ -66,6 +66,13 @@ def writers_agree(ctx, obj, xctx, info, ns_map=None):
                 ctx.violation(f"{k} and {ref_key} produce different documents", {**info, "ns_map": repr(ns_map), "a": ref[1][:1500], "b": v[1][:1500]})
 
 
+def _same_outcome(a, b) -> bool:
+    """equal statuses and equal objects, NaN equal to NaN (dataclass equality says nan != nan)"""
+    from .c01 import _eq
+
+    return a[0] == b[0] and (_eq(a[1], b[1]) if a[0] == "ok" else a[1] == b[1])
+
+
 def handlers_agree(ctx, text, clazz, xctx, info, expect=None, tags_native_tree=()):
     ref = None
     for h in ("native", "lxml"):
@@ -76,7 +83,7 @@ def handlers_agree(ctx, text, clazz, xctx, info, expect=None, tags_native_tree=(
             if ref is None:
                 ref = cur
                 continue
-            if cur != ref:
+            if not _same_outcome(cur, ref):
                 tags = list(tags_native_tree) if (h == "native" and src in ("tree", "element")) else []
                 ctx.violation(f"handler {h} from a {src} source gives {repr(cur[1])[:300]}; native from str gives {repr(ref[1])[:300]}",
                               {**info, "text": text[:1500], "handler": h, "source": src, "finding_tags": tags})
@@ -90,7 +97,7 @@ def handlers_agree(ctx, text, clazz, xctx, info, expect=None, tags_native_tree=(
             st, obj, nwarn = hb.parse(text, h, xctx, clazz, src, ParserConfig(), parser=shared)
             ctx.case(("src-reused-parser", info.get("key"), h, src))
             cur = (st, obj if st == "ok" else type(obj).__name__)
-            if cur != ref:
+            if not _same_outcome(cur, ref):
                 tags = list(tags_native_tree) if (h == "native" and src in ("tree", "element")) else []
                 ctx.violation(f"handler {h} from a {src} source through a REUSED parser gives {repr(cur[1])[:300]}; native from str gives {repr(ref[1])[:300]}",
                               {**info, "text": text[:1500], "handler": h, "source": src, "finding_tags": tags})
